@@ -6,6 +6,8 @@ package drpcsignal
 import (
 	"sync"
 	"sync/atomic"
+
+	"storj.io/drpc/drpcdebug"
 )
 
 type signalStatus = uint32
@@ -31,6 +33,7 @@ func (s *Signal) Wait() {
 
 // Signal returns a channel that will be closed when the signal is set.
 func (s *Signal) Signal() chan struct{} {
+	drpcdebug.Point("signal.signal.load")
 	if atomic.LoadUint32(&s.status)&statusChannelCreated != 0 {
 		return s.ch
 	}
@@ -40,18 +43,24 @@ func (s *Signal) Signal() chan struct{} {
 // signalSlow is the slow path for Signal, so that the fast path is inlined into
 // callers.
 func (s *Signal) signalSlow() chan struct{} {
+	drpcdebug.Point("signal.signalslow.lock")
 	s.mu.Lock()
 	if set := s.status; set&statusChannelCreated == 0 {
+		drpcdebug.Point("signal.signalslow.make")
 		s.ch = make(chan struct{})
+		drpcdebug.Point("signal.signalslow.store")
 		atomic.StoreUint32(&s.status, set|statusChannelCreated)
 	}
+	drpcdebug.Point("signal.signalslow.unlock")
 	s.mu.Unlock()
+	drpcdebug.Point("signal.signalslow.ret")
 	return s.ch
 }
 
 // Set stores the error in the signal. It only keeps track of the first
 // error set, and returns true if it was the first error set.
 func (s *Signal) Set(err error) (ok bool) {
+	drpcdebug.Point("signal.set.load")
 	if atomic.LoadUint32(&s.status)&statusErrorSet != 0 {
 		return false
 	}
@@ -61,10 +70,12 @@ func (s *Signal) Set(err error) (ok bool) {
 // setSlow is the slow path for Set, so that the fast path is inlined into
 // callers.
 func (s *Signal) setSlow(err error) (ok bool) {
+	drpcdebug.Point("signal.setslow.lock")
 	s.mu.Lock()
 	if status := s.status; status&statusErrorSet == 0 {
 		ok = true
 
+		drpcdebug.Point("signal.setslow.err")
 		s.err = err
 		if status&statusChannelCreated == 0 {
 			s.ch = closed
@@ -73,12 +84,15 @@ func (s *Signal) setSlow(err error) (ok bool) {
 		// we have to store the flags after we set the channel but before we
 		// close it, otherwise there are races where a caller can hit the
 		// atomic fast path and observe invalid values.
+		drpcdebug.Point("signal.setslow.store")
 		atomic.StoreUint32(&s.status, statusErrorSet|statusChannelCreated)
 
+		drpcdebug.Point("signal.setslow.close")
 		if status&statusChannelCreated != 0 {
 			close(s.ch)
 		}
 	}
+	drpcdebug.Point("signal.setslow.unlock")
 	s.mu.Unlock()
 	return ok
 }
@@ -86,7 +100,9 @@ func (s *Signal) setSlow(err error) (ok bool) {
 // Get returns the error set with the signal and a boolean indicating if
 // the result is valid.
 func (s *Signal) Get() (error, bool) {
+	drpcdebug.Point("signal.get.load")
 	if atomic.LoadUint32(&s.status)&statusErrorSet != 0 {
+		drpcdebug.Point("signal.get.err")
 		return s.err, true
 	}
 	return nil, false
@@ -94,6 +110,7 @@ func (s *Signal) Get() (error, bool) {
 
 // IsSet returns true if the Signal is set.
 func (s *Signal) IsSet() bool {
+	drpcdebug.Point("signal.isset.load")
 	return atomic.LoadUint32(&s.status)&statusErrorSet != 0
 }
 
@@ -101,7 +118,9 @@ func (s *Signal) IsSet() bool {
 // care must be taken. A non-nil error returned from this method means that
 // the Signal has been set, but the inverse is not true.
 func (s *Signal) Err() error {
+	drpcdebug.Point("signal.err.load")
 	if atomic.LoadUint32(&s.status)&statusErrorSet != 0 {
+		drpcdebug.Point("signal.err.err")
 		return s.err
 	}
 	return nil
